@@ -55,8 +55,8 @@ def gen_conversation(rnd, nreloads, setsize, nkeys, disjoint=False):
     for _ in range(4):
         fam = rnd.choice("46")
         ln = rnd.randint(4, 16)
-        pre_p.append((fam, bits(rnd, ln, fam), ln, ln + 8, rnd.randint(1, 9), 2))
-    pre_k = [(rnd.randint(1, 9), rnd.randint(241, 250) * 256, 2) for _ in range(2)]
+        pre_p.append((fam, bits(rnd, ln, fam), ln, ln + 8, rnd.randint(1, 9), rnd.choice([2, 0])))      # 0: no socket
+    pre_k = [(rnd.randint(1, 9), rnd.randint(241, 250) * 256, s) for s in (2, 0)]
     qs = []
     for fam, b, ln, mx, asn in rnd.sample(pool, min(len(pool), 60)) + common[:3]:
         w = 32 if fam == "4" else 128
